@@ -166,7 +166,7 @@ def check_iostream(ck):
     import re as _re
     from ..x_absint import Evaluator, Obj, UNK
     fr = _F(ck, IO, "BaseIOStream._find_read_pos")
-    cm = ck.func(IO, "BaseIOStream._check_max_bytes")
+    cm = _F(ck, IO, "BaseIOStream._check_max_bytes")
 
     def fold(buf, mode, max_bytes):
         ev = mk_evaluator(fr)
@@ -440,7 +440,7 @@ def eval_gzip(ck, fi, chunk_len, start_total, limit_setup, chunk_size=8, ratio=4
         name = d.split(".")[1]
         if name in ("data_received", "headers_received", "finish", "on_connection_close") or not ck.repo.has_func(H1, "_GzipMessageDelegate." + name):
             return None
-        f = ck.repo.func(H1, "_GzipMessageDelegate." + name)
+        f = norm_func(ck.repo, ck.repo.func(H1, "_GzipMessageDelegate." + name))
         return None if isinstance(f.node, ast.AsyncFunctionDef) else f.node
 
     ev.inline = inline
@@ -569,7 +569,7 @@ def check_gzip(ck, LIVE, R="C04.decompressed-limit"):
             name = d.split(".")[1]
             if name in ("data_received", "headers_received", "finish", "on_connection_close") or not ck.repo.has_func(H1, "_GzipMessageDelegate." + name):
                 return None
-            f_ = ck.repo.func(H1, "_GzipMessageDelegate." + name)
+            f_ = norm_func(ck.repo, ck.repo.func(H1, "_GzipMessageDelegate." + name))
             return None if isinstance(f_.node, ast.AsyncFunctionDef) else f_.node
 
         ev.inline = inline
